@@ -4,10 +4,12 @@ carries the verdict the specification prescribes: accept (with identity) or reje
 import base64
 import datetime
 import json
+import os
 
 from vlib import sigref
 
-AK, SK = "AKIDEXAMPLE", "wJalrXUtnFEMI/K7MDENG+bPxRfiCYEXAMPLEKEY"
+# VERIF_SK: C16 re-runs the families with secrets of other lengths (reload this module after setting it)
+AK, SK = "AKIDEXAMPLE", os.environ.get("VERIF_SK") or "wJalrXUtnFEMI/K7MDENG+bPxRfiCYEXAMPLEKEY"
 DATE = "20130524T000000Z"
 BOUNDARY = "------------------------c634190ccaebbc34"
 
